@@ -358,6 +358,92 @@ func runC19(c *runCtx) {
 			}
 		}
 	}
+	// A3. the ways a file can be named on the command line (./x, ../dir/x, dot-directories, dir/../x, absolute), each next to
+	// a look-alike file that passes: the reports name exactly the failing inputs — a name that resolves to another file
+	// is another file
+	{
+		proj := filepath.Join(dir, "proj")
+		w := func(rel, content string) { write(filepath.Join("proj", rel), content) }
+		bad, good := "SELECT FROM", "SELECT a FROM t"
+		write("shared/q.sql", bad)
+		w("shared/q.sql", good)
+		w(".staging/q.sql", bad)
+		w("staging/q.sql", good)
+		w("a.sql", bad)
+		w("sub/x.sql", good)
+		w("x.sql", bad)
+		w("..data/y.sql", bad)
+		w("data/y.sql", good)
+		write("abs/bad.sql", bad)
+		args := []string{"../shared/q.sql", "shared/q.sql", ".staging/q.sql", "staging/q.sql", "./a.sql", "sub/x.sql", "sub/../x.sql", "..data/y.sql", "data/y.sql", filepath.Join(dir, "abs", "bad.sql")}
+		failing := map[string]bool{}
+		for _, a := range []string{"../shared/q.sql", ".staging/q.sql", "./a.sql", "sub/../x.sql", "..data/y.sql", filepath.Join(dir, "abs", "bad.sql")} {
+			failing[resolveIn(proj, a)] = true
+		}
+		for _, format := range []string{"json", "sarif"} {
+			out := runCLI(bin, proj, "", append([]string{"validate", "--output-format", format}, args...)...)
+			res.count("path-shapes|"+format, true)
+			var names []string
+			if format == "json" {
+				var js struct {
+					Errors []struct {
+						File string `json:"file"`
+					} `json:"errors"`
+				}
+				if json.Unmarshal([]byte(out.stdout), &js) != nil {
+					res.fail("validate-json-malformed", "validate --output-format json does not print one well-formed JSON document", map[string]any{"args": args}, truncate(out.stdout, 300))
+					continue
+				}
+				for _, e := range js.Errors {
+					names = append(names, e.File)
+				}
+			} else {
+				var sf struct {
+					Runs []struct {
+						Results []struct {
+							Locations []struct {
+								PhysicalLocation struct {
+									ArtifactLocation struct {
+										URI string `json:"uri"`
+									} `json:"artifactLocation"`
+								} `json:"physicalLocation"`
+							} `json:"locations"`
+						} `json:"results"`
+					} `json:"runs"`
+				}
+				if json.Unmarshal([]byte(out.stdout), &sf) != nil || len(sf.Runs) != 1 {
+					res.fail("validate-sarif-malformed", "validate --output-format sarif does not print one well-formed SARIF document", map[string]any{"args": args}, truncate(out.stdout, 300))
+					continue
+				}
+				for _, rr := range sf.Runs[0].Results {
+					for _, l := range rr.Locations {
+						names = append(names, strings.TrimPrefix(l.PhysicalLocation.ArtifactLocation.URI, "file://"))
+					}
+				}
+			}
+			got := map[string]bool{}
+			for _, n := range names {
+				got[resolveIn(proj, n)] = true
+			}
+			var missing, extra []string
+			for f := range failing {
+				if !got[f] {
+					missing = append(missing, f)
+				}
+			}
+			for f := range got {
+				if !failing[f] {
+					extra = append(extra, f)
+				}
+			}
+			sort.Strings(missing)
+			sort.Strings(extra)
+			if len(missing)+len(extra) > 0 {
+				res.fail("validate-"+format+"-names", "the "+strings.ToUpper(format)+" report does not name exactly the failing inputs (names resolved against the working directory)", map[string]any{"working_directory": "proj", "args": args},
+					map[string]any{"reported": names, "failing_not_named": missing, "named_but_not_failing": extra})
+			}
+		}
+	}
 	// B. format consistency
 	flagSets := [][]string{{}, {"--compact"}, {"--no-uppercase"}, {"--indent", "4"}, {"--compact", "--no-uppercase"}}
 	for r := 0; r < c.n(50, 1200); r++ {
@@ -490,4 +576,13 @@ func runC19(c *runCtx) {
 			}
 		}
 	}
+}
+
+// resolveIn: the file a name given on the command line (or in a report) refers to, seen from the working directory
+func resolveIn(wd, name string) string {
+	name = filepath.FromSlash(name)
+	if !filepath.IsAbs(name) {
+		name = filepath.Join(wd, name)
+	}
+	return filepath.Clean(name)
 }
